@@ -167,6 +167,17 @@ func compareRecords(a, b gts.Sequence, structural bool) (field, detail string) {
 		if len(ia) != len(ib) {
 			return "qualifier-count", fmt.Sprintf("feature %d (%s): %d vs %d qualifiers", i, fa[i].Key, len(ia), len(ib))
 		}
+		// the rows as stored, not only what the accessors show: two rows with
+		// the same name are legal in a Props value and Get() sees just the first
+		ra, rb := fa[i].Props, fb[i].Props
+		if len(ra) != len(rb) {
+			return "qualifier-rows", fmt.Sprintf("feature %d (%s): %d vs %d stored qualifier rows", i, fa[i].Key, len(ra), len(rb))
+		}
+		for j := range ra {
+			if !strsEq(ra[j], rb[j]) {
+				return "qualifier-rows", fmt.Sprintf("feature %d (%s) stored row %d: %q vs %q", i, fa[i].Key, j, ra[j], rb[j])
+			}
+		}
 		for j := range ia {
 			if ia[j].Key != ib[j].Key {
 				return "qualifier-name", fmt.Sprintf("feature %d qualifier %d: %q vs %q", i, j, ia[j].Key, ib[j].Key)
